@@ -310,7 +310,10 @@ def exppp(repo):
                     r"EXPRstring_bound\s*\(\s*e->e\.op1\s*\)\s*\+\s*EXPRstring_bound\s*\(\s*e->e\.op2\s*\)"):
             if not re.search(pat, bd):
                 raise ValueError(f"EXPRstring_bound: term {pat} missing")
-        elen = (acap, ".sized", int(base.group(1)), per[0], int(need.group(1)))
+        kf = re.search(r"case\s+string_\s*:(?:\s*case\s+\w+\s*:)*\s*n\s*\+=\s*(?:(\d+)\s*\*\s*)?strlen\s*\(\s*e->symbol\.name\s*\)\s*;", bd)
+        if not kf:
+            raise ValueError("EXPRstring_bound: how a string literal is counted is not recognised")
+        elen = (acap, ".sized", int(base.group(1)), per[0], int(need.group(1)), int(kf.group(1) or 1))
     # fixed text EXPRstring adds per node: sum of literal text outside LISTdo loops, max separator inside
     es = _body(p, r"\bvoid\s+EXPRstring\s*\(\s*char\s*\*\s*buffer\s*,\s*Expression\s+e\s*\)\s*\{", "EXPRstring")
     eo = _body(p, r"\bvoid\s+EXPRop_string\s*\([^)]*\)\s*\{", "EXPRop_string")
@@ -333,7 +336,22 @@ def exppp(repo):
         fixed = max(fixed, tot)
         for lp in loops:
             sep = max([sep] + [lit_len(x) for x in re.findall(r"\"((?:[^\"\\]|\\.)*)\"", lp)])
-    return dict(wrap=(wcap, wcall), raw=(rcap, rcall), line=line, elen=elen, fixed=fixed, sep=sep)
+    # bytes EXPRstring writes per character of a string literal
+    sb = re.search(r"case\s+string_\s*:(.*?)\bbreak\s*;", es, re.S)
+    if not sb:
+        raise ValueError("EXPRstring: case string_ not found")
+    blk = sb.group(1)
+    if re.search(r"\bfor\s*\(|\bwhile\s*\(", blk):
+        lm = re.search(r"(?:for|while)\s*\(", blk)
+        stores = len(re.findall(r"\*\s*\w+\s*\+\+\s*=", _body(blk[lm.start():], r"(?:for|while)\s*\([^{]*\)\s*\{", "loop over the literal")))
+        if stores < 1:
+            raise ValueError("EXPRstring: loop over a string literal not recognised")
+        wfac = stores
+    elif re.search(r"sprintf\s*\(\s*buffer\s*,\s*\"%s\"\s*,\s*e->symbol\.name\s*\)", blk):
+        wfac = 1
+    else:
+        raise ValueError("EXPRstring: how a string literal is written is not recognised")
+    return dict(wrap=(wcap, wcall), raw=(rcap, rcall), line=line, elen=elen, fixed=fixed, sep=sep, wfac=wfac)
 
 
 # ---------------------------------------------------------------- exp2cxx / exp2python name case functions
@@ -687,9 +705,11 @@ def extract(repo):
     el = x["elen"]
     A("/-- pretty_expr.c `EXPRlength`: buffer handed to `EXPRstring`, and the constants of `EXPRstring_bound` -/")
     if el[1] == ".fixed":
-        A(f"def exprLenCfg : ExprLenCfg := {{ cap := {el[0]}, sized := false, base := 0, perArg := 0, needExtra := 0 }}")
+        A(f"def exprLenCfg : ExprLenCfg := {{ cap := {el[0]}, sized := false, base := 0, perArg := 0, needExtra := 0, nameFactor := 1 }}")
     else:
-        A(f"def exprLenCfg : ExprLenCfg := {{ cap := {el[0]}, sized := true, base := {el[2]}, perArg := {el[3]}, needExtra := {el[4]} }}")
+        A(f"def exprLenCfg : ExprLenCfg := {{ cap := {el[0]}, sized := true, base := {el[2]}, perArg := {el[3]}, needExtra := {el[4]}, nameFactor := {el[5]} }}")
+    A("/-- most bytes `EXPRstring` writes for one character of a string literal (1: copied as is; 2: an apostrophe is doubled) -/")
+    A(f"def exprNameWriteFactor : Nat := {x['wfac']}")
     A("/-- most fixed text (literals, a formatted number) `EXPRstring` adds for one node; longest list separator -/")
     A(f"def exprFixedMax : Nat := {x['fixed']}")
     A(f"def exprSepMax : Nat := {x['sep']}")
